@@ -81,15 +81,15 @@ Definition test_fn (t : N) : ref -> ref -> bool :=
 
 (* a key the table accepts: its Go representation is comparable.  An operation on any other key (a list)
    signals a type-error and leaves the table as it was (repair C16-4; before it the host died). *)
-Definition key_hashable (pool : list ref) (i : nat) : bool :=
+Definition key_hashable (pool : list tkey) (i : nat) : bool :=
   match key_ok pool i with Some true => true | _ => false end.
 Definition op_key (o : hop) : option nat :=
   match o with HPut i _ | HGet i | HRem i => Some i | _ => None end.
-Definition op_refused (pool : list ref) (o : hop) : bool :=
+Definition op_refused (pool : list tkey) (o : hop) : bool :=
   match op_key o with Some i => negb (key_hashable pool i) | None => false end.
 
 Section TableSpec.
-  Variable pool : list ref.
+  Variable pool : list tkey.
   Variable tst : nat -> nat -> bool.       (* the table's test on pool indices *)
   Let n := List.length pool.
 
@@ -142,7 +142,7 @@ Definition obs_equiv (a b : hobs) : Prop :=
 Definition op_in_range (np : nat) (o : hop) : bool :=
   match o with HPut i _ | HGet i | HRem i => Nat.ltb i np | _ => true end.
 Section PoolGuard.
-  Variable pool : list ref.
+  Variable pool : list tkey.
   Variable tst : nat -> nat -> bool.
   Let idx := seq 0 (List.length pool).
   Let hk := key_hashable pool.
@@ -176,8 +176,18 @@ Definition simple_pool (pool : list ref) : bool := forallb (fun r => simple_key 
 Definition const_words (a b : ref) : Prop :=
   r_obj a = r_obj b -> (r_obj a = Nil \/ r_obj a = Tru) -> r_word a = r_word b.
 
-Definition pool_test (t : N) (pool : list ref) (i j : nat) : bool :=
+(* the tests on keys.  A signed-byte / unsigned-byte key (value v inside int64): eq is identity of the pointer
+   (same Go type, same data word); eql / equal / equalp are eq, or `same` after NormalizeNumber has made the fixnum
+   v of it - against another such key, against a number of the universe *)
+Definition key_test (t : N) (a b : tkey) : bool :=
+  match a, b with
+  | TRef x, TRef y => test_fn t x y
+  | TByt u v w, TByt u' v' w' => (Bool.eqb u u' && N.eqb w w') || (negb (N.eqb t 0) && Z.eqb v v')
+  | TByt _ v _, TRef y => negb (N.eqb t 0) && is_number (r_obj y) && same_m (Fix v) (r_obj y)
+  | TRef x, TByt _ v _ => negb (N.eqb t 0) && is_number (r_obj x) && same_m (r_obj x) (Fix v)
+  end.
+Definition pool_test (t : N) (pool : list tkey) (i j : nat) : bool :=
   match nth_error pool i, nth_error pool j with
-  | Some a, Some b => test_fn t a b
+  | Some a, Some b => key_test t a b
   | _, _ => false
   end.
